@@ -181,6 +181,16 @@ func runCase(c *Case) {
 			p := resolveOnce(bs[r.Arch], r.World, nil)
 			report(p, "resolve(allArchs=nil)")
 			r.HasPlain, r.PlainOK, r.PlainObs = true, p.ok, p.pids
+			if len(c.Archs) > 1 {
+				switch {
+				case p.ok && !o.ok:
+					filterMadeError++
+				case p.ok && o.ok && fmt.Sprint(p.pids) != fmt.Sprint(o.pids):
+					filterChangedChoice++
+				case p.ok && o.ok:
+					filterNoEffect++
+				}
+			}
 		}
 	}
 }
@@ -352,8 +362,11 @@ func stageC14(dir string, seed uint64, tier string) error {
 
 var runsTotal, runsOK int
 
+// multi-architecture runs compared with the same call without allArchs: how often the cross-architecture filter mattered
+var filterMadeError, filterChangedChoice, filterNoEffect int
+
 func stat(w *gal.Writer) {
-	fmt.Printf("STAT {\"resolutions\":%d,\"resolutions_ok\":%d,\"panics_or_timeouts\":%d}\n", runsTotal, runsOK, implViolations)
+	fmt.Printf("STAT {\"resolutions\":%d,\"resolutions_ok\":%d,\"panics_or_timeouts\":%d,\"cross_arch_filter_turned_success_into_error\":%d,\"cross_arch_filter_changed_the_install_list\":%d,\"cross_arch_filter_no_effect\":%d}\n", runsTotal, runsOK, implViolations, filterMadeError, filterChangedChoice, filterNoEffect)
 }
 
 func jsonOf(v any) string {
